@@ -53,18 +53,24 @@ pub fn intersect_cl(c: &Circle, l: &Line) -> CircleLineIntersection {
         let ort = ort / ort.len();
         CircleLineIntersection::Touch(c.c - ort * (l.a * c.c.x + l.b * c.c.y + l.c))
     } else {
-        let mut ort = Point::new(l.a, l.b);
-        if ort.len() != 0.0 {
-            ort = ort / ort.len();
-        }
-        if l.a * c.c.x + l.b * c.c.y + l.c > 0.0 {
-            ort = ort * -1.0;
-        }
-        let par = Point::new(-ort.y, ort.x);
-        let ort = ort * d;
-        let side = (c.r * c.r - d * d).max(0.0).sqrt();
-        CircleLineIntersection::Intersect(c.c + ort + par * side, c.c + ort - par * side)
+        let (u, v) = chord(c, l, d);
+        CircleLineIntersection::Intersect(u, v)
     }
+}
+
+/// End points of the chord that the line `l`, at distance `d <= c.r` from the centre, cuts out of the circle.
+fn chord(c: &Circle, l: &Line, d: f64) -> (Point, Point) {
+    let mut ort = Point::new(l.a, l.b);
+    if ort.len() != 0.0 {
+        ort = ort / ort.len();
+    }
+    if l.a * c.c.x + l.b * c.c.y + l.c > 0.0 {
+        ort = ort * -1.0;
+    }
+    let par = Point::new(-ort.y, ort.x);
+    let ort = ort * d;
+    let side = (c.r * c.r - d * d).max(0.0).sqrt();
+    (c.c + ort + par * side, c.c + ort - par * side)
 }
 
 #[derive(Copy, Clone, Debug)]
@@ -109,11 +115,12 @@ pub fn intersect_cc<'a>(mut a: &'a Circle, mut b: &'a Circle) -> CircleIntersect
             -a.c.y * 2.0 + b.c.y * 2.0,
             a.c.x.powi(2) + a.c.y.powi(2) - b.c.x.powi(2) - b.c.y.powi(2) - a.r.powi(2) + b.r.powi(2),
         );
-        match intersect_cl(a, &line) {
-            CircleLineIntersection::None => CircleIntersection::None,
-            CircleLineIntersection::Touch(p) => CircleIntersection::TouchOutside(p),
-            CircleLineIntersection::Intersect(u, v) => CircleIntersection::Intersect(u, v),
-        }
+        // The centre distance is EPS-clear of both tangent distances, so the circles cross in two points: cut the
+        // larger circle with the radical axis. (Going through intersect_cl would apply its own EPS to the distance
+        // of the axis from the centre, which for circles of very different size is a far coarser test and reported
+        // crossing circles - even near an internal tangency - as TouchOutside.)
+        let (u, v) = chord(a, &line, line.dist(&a.c).min(a.r));
+        CircleIntersection::Intersect(u, v)
     } else if d < a.r + b.r + EPS {
         CircleIntersection::TouchOutside(a.c + (b.c - a.c) / d * a.r)
     } else {
